@@ -12,3 +12,5 @@ import QlibcModel.Props.C03
 #print axioms Qlibc.Props.C03.epoch_inv_reachable
 #print axioms Qlibc.Props.C03.history_walks_ok
 #print axioms Qlibc.Props.C03.traversal_any_history
+#print axioms Qlibc.Shapes.Tree.widths_as_modelled
+#print axioms Qlibc.Shapes.Tree.no_hidden_static_state
